@@ -89,6 +89,167 @@ theorem quote_exact_distance (c : Ctx) (i : Nat) (x : Act) (hi : i ≤ c.acts.le
     rw [distance_estimate_exact c i x hi hte]
     simp [hemp, hte]
 
+/-! ## the cost objective: exact when nobody waits
+
+`CostObjective::estimate_activity` prices waiting and its possible reduction heuristically, so with waiting the quote is
+an estimate. Without waiting - in the tour as it is and in the tour with the job inserted - it is exact: distance and
+duration both change by the detour, the duration also by the service time. -/
+
+/-- nobody waits along the sequence: every arrival is at or after the start of the window -/
+def noWait (t : Nat → Nat → Int) : List Act → Nat → Int → Bool
+  | [], _, _ => true
+  | a :: rest, l, dep => decide (a.s ≤ dep + t l a.loc) && noWait t rest a.loc (depOf a (dep + t l a.loc))
+
+def durSum (xs : List Act) : Int := (xs.map (·.dur)).sum
+
+theorem noWait_append (t : Nat → Nat → Int) (xs ys : List Act) (l : Nat) (dep : Int) :
+    noWait t (xs ++ ys) l dep = (noWait t xs l dep && noWait t ys (after t xs l dep).1 (after t xs l dep).2) := by
+  induction xs generalizing l dep with
+  | nil => simp [noWait, after]
+  | cons a r ih => simp only [List.cons_append, noWait, after, ih, Bool.and_assoc]
+
+/-- without waiting the clock runs on travel and service only -/
+theorem after_noWait (t : Nat → Nat → Int) (xs : List Act) (l : Nat) (dep : Int) (h : noWait t xs l dep = true) :
+    (after t xs l dep).2 = dep + totalDist t xs l + durSum xs := by
+  induction xs generalizing l dep with
+  | nil => simp [after, totalDist, durSum]
+  | cons a r ih =>
+    simp only [noWait, Bool.and_eq_true, decide_eq_true_eq] at h
+    rw [after, ih _ _ h.2]
+    have hd : depOf a (dep + t l a.loc) = dep + t l a.loc + a.dur := by
+      unfold depOf; rw [Int.max_eq_left h.1]
+    simp only [hd, totalDist, durSum, List.map_cons, List.sum_cons]
+    omega
+
+theorem futureWaiting_noWait (t : Nat → Nat → Int) (xs : List Act) (l : Nat) (dep : Int) (h : noWait t xs l dep = true) :
+    ∀ w ∈ futureWaiting xs (sched t xs l dep), w = 0 := by
+  induction xs generalizing l dep with
+  | nil => intro w hw; simp [futureWaiting] at hw
+  | cons a r ih =>
+    simp only [noWait, Bool.and_eq_true, decide_eq_true_eq] at h
+    intro w hw
+    simp only [sched, futureWaiting, List.mem_cons] at hw
+    have iht := ih _ _ h.2
+    rcases hw with rfl | hw
+    · have h0 : (futureWaiting r (sched t r a.loc (depOf a (dep + t l a.loc)))).headD 0 = 0 := by
+        cases hf : futureWaiting r (sched t r a.loc (depOf a (dep + t l a.loc))) with
+        | nil => rfl
+        | cons z zs => exact iht z (by simp [hf])
+      rw [h0]
+      have : max (a.s - (dep + t l a.loc)) 0 = 0 := by omega
+      omega
+    · exact iht w hw
+
+/-- the leg estimate is exact for any additive metric (distance: `distance_estimate_exact`; here also the driving time) -/
+theorem leg_estimate_exact (m : Nat → Nat → Int) (c : Ctx) (i : Nat) (x : Act) (hi : i ≤ c.acts.length)
+    (hne : c.tour.isEmpty = false) :
+    estimateLeg c m i x =
+      totalDist m (c.veh.full (insertAt c.acts i x)) c.veh.startLoc
+        - totalDist m (c.veh.full c.acts) c.veh.startLoc := by
+  unfold estimateLeg
+  dsimp only
+  rw [C06.full_insertAt c.veh c.acts i x hi]
+  conv => rhs; rhs; rw [C06.full_split c.veh c.acts i hi]
+  rw [totalDist_append, totalDist_append, after_fst]
+  simp only [hne]
+  cases hrest : (c.veh.full c.acts).drop i with
+  | nil => simp [totalDist]; omega
+  | cons nx r => simp [totalDist]; omega
+
+theorem durSum_append (xs ys : List Act) : durSum (xs ++ ys) = durSum xs + durSum ys := by
+  simp [durSum, List.sum_append]
+
+/-- **cost estimate, no waiting**: the quoted activity-level cost is the detour priced per distance plus the detour and
+    the service priced per time -/
+theorem cost_estimate_noWait (c : Ctx) (i : Nat) (x : Act) (hi : i ≤ c.acts.length)
+    (hne : c.tour.isEmpty = false)
+    (hold : noWait c.m.t (c.veh.full c.acts) c.veh.startLoc c.veh.dep = true)
+    (hnew : noWait c.m.t (c.veh.full (insertAt c.acts i x)) c.veh.startLoc c.veh.dep = true) :
+    estimateCostActivity c i x =
+      estimateLeg c c.m.d i x * c.costs.perDist + (estimateLeg c c.m.t i x + x.dur) * c.costs.perTime := by
+  rw [C06.full_insertAt c.veh c.acts i x hi, noWait_append] at hnew
+  rw [C06.full_split c.veh c.acts i hi, noWait_append] at hold
+  simp only [Bool.and_eq_true] at hnew hold
+  have hfw := futureWaiting_noWait c.m.t (c.veh.full c.acts) c.veh.startLoc c.veh.dep
+    (by rw [C06.full_split c.veh c.acts i hi, noWait_append]; simp [hold.1, hold.2])
+  unfold estimateCostActivity estimateLeg
+  dsimp only
+  simp only [hne]
+  cases hrest : (c.veh.full c.acts).drop i with
+  | nil =>
+    rw [hrest] at hnew
+    simp only [noWait, Bool.and_eq_true, decide_eq_true_eq, Bool.and_true] at hnew
+    have hx := hnew.2
+    have : max (x.s - ((after c.m.t (c.acts.take i) c.veh.startLoc c.veh.dep).2 +
+        c.m.t (after c.m.t (c.acts.take i) c.veh.startLoc c.veh.dep).1 x.loc)) 0 = 0 := by omega
+    simp only [this, Int.add_mul, Int.zero_add, Bool.false_eq_true, if_false]
+    omega
+  | cons nx r =>
+    rw [hrest] at hnew hold
+    simp only [noWait, Bool.and_eq_true, decide_eq_true_eq] at hnew hold
+    obtain ⟨_, hxs, hnxs, _⟩ := hnew
+    obtain ⟨_, hnxo, _⟩ := hold
+    have hdx : depOf x ((after c.m.t (c.acts.take i) c.veh.startLoc c.veh.dep).2 +
+        c.m.t (after c.m.t (c.acts.take i) c.veh.startLoc c.veh.dep).1 x.loc)
+        = (after c.m.t (c.acts.take i) c.veh.startLoc c.veh.dep).2 +
+          c.m.t (after c.m.t (c.acts.take i) c.veh.startLoc c.veh.dep).1 x.loc + x.dur := by
+      unfold depOf; rw [Int.max_eq_left hxs]
+    rw [hdx] at hnxs ⊢
+    -- the waiting the estimator may give back is zero: nobody waits in the tour as it is
+    have hw0 : (if i < c.tour.length then (futureWaiting (c.veh.full c.acts)
+        (sched c.m.t (c.veh.full c.acts) c.veh.startLoc c.veh.dep)).getD i 0 else 0) = 0 := by
+      split
+      · rw [List.getD_eq_getElem?_getD]
+        cases hg : (futureWaiting (c.veh.full c.acts) (sched c.m.t (c.veh.full c.acts) c.veh.startLoc c.veh.dep))[i]? with
+        | none => rfl
+        | some w => exact hfw w (List.mem_of_getElem? hg)
+      · rfl
+    rw [hw0]
+    have m1 : max (x.s - ((after c.m.t (c.acts.take i) c.veh.startLoc c.veh.dep).2 +
+        c.m.t (after c.m.t (c.acts.take i) c.veh.startLoc c.veh.dep).1 x.loc)) 0 = 0 := by omega
+    have m2 : max (nx.s - ((after c.m.t (c.acts.take i) c.veh.startLoc c.veh.dep).2 +
+        c.m.t (after c.m.t (c.acts.take i) c.veh.startLoc c.veh.dep).1 x.loc + x.dur + c.m.t x.loc nx.loc)) 0 = 0 := by omega
+    have m3 : max (nx.s - ((after c.m.t (c.acts.take i) c.veh.startLoc c.veh.dep).2 +
+        c.m.t (after c.m.t (c.acts.take i) c.veh.startLoc c.veh.dep).1 nx.loc)) 0 = 0 := by omega
+    have m4 : ∀ z : Int, min 0 (max 0 z) = 0 := by intro z; omega
+    simp only [hdx, m1, m2, m3, m4, Int.zero_add, Int.zero_mul, Int.add_mul, Int.sub_mul, Bool.false_eq_true, if_false]
+    omega
+
+theorem durSum_full_insertAt (v : Veh) (jobs : List Act) (i : Nat) (x : Act) (hi : i ≤ jobs.length) :
+    durSum (v.full (insertAt jobs i x)) = durSum (v.full jobs) + x.dur := by
+  rw [C06.full_insertAt v jobs i x hi]
+  conv => rhs; lhs; rw [C06.full_split v jobs i hi]
+  simp only [durSum, List.map_append, List.map_cons, List.sum_append, List.sum_cons]
+  omega
+
+/-- **C20 for the model, cost goal, no waiting**: for a tour that already has jobs, if nobody waits in the tour as it
+    is and in the tour with the job inserted, every component of the quoted cost vector equals the change of the
+    corresponding objective value recomputed from the bare tours - unassigned jobs, number of tours, total cost
+    (fixed + distance x per-distance + duration x per-time). With waiting the quote is an estimate (the real code
+    prices the waiting it may win back heuristically); that case is decided by the oracle on generated cases only. -/
+theorem quote_exact_cost_noWait (c : Ctx) (i : Nat) (x : Act) (hi : i ≤ c.acts.length)
+    (hobj : c.obj = .cost) (hne : c.tour.isEmpty = false)
+    (hold : noWait c.m.t (c.veh.full c.acts) c.veh.startLoc c.veh.dep = true)
+    (hnew : noWait c.m.t (c.veh.full (insertAt c.acts i x)) c.veh.startLoc c.veh.dep = true) :
+    costVector c i x =
+      List.zipWith (· - ·) (fitnessOf c (insertAt c.acts i x) 0) (fitnessOf c c.acts 1) := by
+  have hins : (insertAt c.acts i x).isEmpty = false := by
+    unfold insertAt; simp
+  have hemp : c.acts.isEmpty = false := by simpa [Ctx.acts] using hne
+  unfold costVector fitnessOf transportFitness totalDuration
+  simp only [hobj, hins, hemp, hne, List.zipWith_cons_cons, List.zipWith_nil_right, Bool.false_eq_true, if_false]
+  rw [cost_estimate_noWait c i x hi hne hold hnew,
+      leg_estimate_exact c.m.d c i x hi hne, leg_estimate_exact c.m.t c i x hi hne,
+      after_noWait _ _ _ _ hold, after_noWait _ _ _ _ hnew, durSum_full_insertAt c.veh c.acts i x hi]
+  simp only [Int.add_mul, Int.sub_mul]
+  have e1 : (-1 : Int) = 0 - 1 := by omega
+  have e2 : (0 : Int) = 1 - 1 := by omega
+  rw [e1, e2]
+  congr 2
+  congr 1
+  omega
+
+
 /-! ### non-vacuity -/
 def exM : Mat := { n := 3, dur := [0, 5, 7, 5, 0, 3, 7, 3, 0], dist := [0, 5, 7, 5, 0, 3, 7, 3, 0] }
 def exC : Ctx := { m := exM, veh := { startLoc := 0, earliest := 0, dep := 0, endAt := some (0, 100) }, cap := [5],
@@ -96,5 +257,11 @@ def exC : Ctx := { m := exM, veh := { startLoc := 0, earliest := 0, dep := 0, en
                    tour := [{ act := { loc := 1, s := 0, e := 50, dur := 1 }, dem := none }] }
 -- inserting location 2 after the job: 0→1→2→0 = 15 against 0→1→0 = 10, quote +5, one job less unassigned
 example : costVector exC 1 { loc := 2, s := 0, e := 50, dur := 0 } = [-1, 0, 5] := by decide
+-- the cost goal: nobody waits before and after the insertion (hypotheses of `quote_exact_cost_noWait` hold), the quote
+-- is detour 5 x 1 per distance + (detour 5 + service 2) x 1 per time = 12
+def exK : Ctx := { exC with obj := .cost }
+example : noWait exK.m.t (exK.veh.full exK.acts) exK.veh.startLoc exK.veh.dep = true ∧
+    noWait exK.m.t (exK.veh.full (insertAt exK.acts 1 { loc := 2, s := 0, e := 50, dur := 2 })) exK.veh.startLoc exK.veh.dep = true ∧
+    costVector exK 1 { loc := 2, s := 0, e := 50, dur := 2 } = [-1, 0, 12] := by decide
 
 end C20
